@@ -363,6 +363,57 @@ fn alone_tier(rep: &mut Report, dir: &std::path::Path, profile: &str) {
     }
 }
 
+/// A content far into its cluster: blob number 2050 and 4094 (the last possible one) of a raw and
+/// of a compressed cluster whose other blobs hold one byte each.
+fn deep_tier(rep: &mut Report, dir: &std::path::Path, profile: &str) {
+    for (cname, hint) in [("raw", Hint::No), ("zstd", Hint::Yes)] {
+        for at in [2050usize, 4094] {
+            let l = 6usize;
+            let payload = payload_bytes(l);
+            let built = jbkmc::catch(|| -> Result<ByteRegion, String> {
+                let p = dir.join(format!("deep-{cname}-{at}.jbkc"));
+                let up = camino::Utf8PathBuf::from_path_buf(p.clone()).unwrap();
+                let mut c = jbk::creator::ContentPackCreator::new(&up, jbk::PackId::from(1), jbk::VendorId::from(VENDOR), Default::default(), Comp::Zstd(3).to_jbk()).map_err(|e| e.to_string())?;
+                for i in 0..4095usize {
+                    let b = if i == at { payload.clone() } else { vec![(i % 251) as u8] };
+                    c.add_content(Box::new(std::io::Cursor::new(b)), hint.to_jbk()).map_err(|e| e.to_string())?;
+                }
+                c.finalize().map_err(|e| e.to_string())?;
+                let pack = jbk::reader::ContentPack::new(jbk::Reader::from(jbk::FileSource::open(&p).map_err(|e| e.to_string())?)).map_err(|e| e.to_string())?;
+                pack.get_content(jbk::ContentIdx::from(at as u32)).map_err(|e| e.to_string())?.ok_or_else(|| "no such content".to_string())
+            });
+            let src = format!("ContainerDeep({cname}, blob {at})");
+            let region = match built {
+                Ok(Ok(r)) => r,
+                Ok(Err(e)) => {
+                    rep.violation(&format!("C13 a content far into its cluster cannot be obtained [{cname}]"), &format!("blob {at}: {e}"), json!({"engine":"viewmc","source":src,"profile":profile}));
+                    continue;
+                }
+                Err(p) => {
+                    rep.violation(&format!("C13 panic {} [ContainerDeep]", jbkmc::panic_site(&p)), &p, json!({"engine":"viewmc","source":src,"profile":profile}));
+                    continue;
+                }
+            };
+            for chain in chains(l, 2) {
+                let case = json!({"engine":"viewmc","source":src,"L":l,"chain":chain,"profile":profile});
+                let _g = jbkmc::watchdog::guard(|| case.to_string());
+                let id = format!("{src}:{chain:?}");
+                match jbkmc::catch(|| check_view(&region, &chain, &payload, usize::MAX)) {
+                    Ok(Ok(_)) => rep.case(Some(&id), "agree(blob far into its cluster)"),
+                    Ok(Err(f)) => {
+                        rep.case(Some(&id), "violation");
+                        rep.violation(&format!("C13 {} [ContainerDeep]", f.key), &f.what, case);
+                    }
+                    Err(p) => {
+                        rep.case(Some(&id), "panic");
+                        rep.violation(&format!("C13 panic {} [ContainerDeep]", jbkmc::panic_site(&p)), &p, case);
+                    }
+                }
+            }
+        }
+    }
+}
+
 /// First access to a still-decoding source is a stream/slice deep in the data.
 fn slow_decoder_tier(rep: &mut Report, profile: &str) {
     let l = 9000;
@@ -508,7 +559,7 @@ fn main() {
     let mut rep = Report::new(
         "viewmc",
         "C13",
-        "payloads of length L in 0..5 (quick) / 0..8 (thorough), never at offset 0 of their source, followed by other bytes or ending exactly at the end of the source, on 8 source kinds (Vec, file uncut, file cut <4 KiB, file cut >=4 KiB mmap, background decoder identity and zstd, content #2 of a raw and of a compressed cluster through the container API); every chain of nested cuts (o1,s1) >= (o2,s2) >= (o3,s3) up to depth 3; on every view: size(), get_slice of every sub-range on the slice and on the converted region, and 4 stream conversion paths x every composition of the length into read sizes with size()/offset()/size_left() after every read, a zero-length read before every read and at the end (returns 0, moves nothing) and an over-long read at the end, and the same walk with read_exact for every part but the last and read_to_end for the rest; plus one 5000-byte payload per source with a reduced cut set and one 70000-byte payload per source with slices and reads of 65535/65536/65537+ bytes on the region, a slice, a nested slice and the region made from it; one 6 MiB incompressible content stored compressed (stored cluster above 4 MiB) in a file-backed pack; contents of 1..9 bytes alone in a zstd/lz4/lzma cluster (cuts to depth 2); a decoder scripted to stall after its first 4096 bytes with the first access deep in the data; two views of one source read alternately (all 6 interleavings of 2+2 reads) at distances {0,10,1023,1024,1025,2048,4096} x read sizes {1,10,1023,1024}; non-trivial = view of at least one byte; distinct by (source, L, chain)",
+        "payloads of length L in 0..5 (quick) / 0..8 (thorough), never at offset 0 of their source, followed by other bytes or ending exactly at the end of the source, on 8 source kinds (Vec, file uncut, file cut <4 KiB, file cut >=4 KiB mmap, background decoder identity and zstd, content #2 of a raw and of a compressed cluster through the container API); every chain of nested cuts (o1,s1) >= (o2,s2) >= (o3,s3) up to depth 3; on every view: size(), get_slice of every sub-range on the slice and on the converted region, and 4 stream conversion paths x every composition of the length into read sizes with size()/offset()/size_left() after every read, a zero-length read before every read and at the end (returns 0, moves nothing) and an over-long read at the end, and the same walk with read_exact for every part but the last and read_to_end for the rest; plus one 5000-byte payload per source with a reduced cut set and one 70000-byte payload per source with slices and reads of 65535/65536/65537+ bytes on the region, a slice, a nested slice and the region made from it; one 6 MiB incompressible content stored compressed (stored cluster above 4 MiB) in a file-backed pack; contents of 1..9 bytes alone in a zstd/lz4/lzma cluster (cuts to depth 2); a 6-byte content as blob 2050 and 4094 of a raw and of a compressed cluster; a decoder scripted to stall after its first 4096 bytes with the first access deep in the data; two views of one source read alternately (all 6 interleavings of 2+2 reads) at distances {0,10,1023,1024,1025,2048,4096} x read sizes {1,10,1023,1024}; non-trivial = view of at least one byte; distinct by (source, L, chain)",
     );
     rep.extra.insert("profile".into(), json!(profile));
     let dir = jbkmc::scratch_dir("view");
@@ -710,6 +761,7 @@ fn main() {
     }
     if replay.is_none() {
         alone_tier(&mut rep, dir.path(), profile);
+        deep_tier(&mut rep, dir.path(), profile);
         slow_decoder_tier(&mut rep, profile);
         interleave_tier(&mut rep, dir.path(), profile, t);
     }
